@@ -9,6 +9,9 @@ checks={
  "C13": dict(category="model_checking", design="§3 C13", technique="stateless DFS over all goroutine schedules of the real relay up to a preemption bound (iterative context bounding) under a cooperative scheduler",
    text="The real TrzszRelay (NewTrzszRelay) is driven with scripted, causally gated client and server streams; every schedule of its goroutines with at most 1 preemption (quick) / 2 (thorough), context switches at blocking points being free, is executed and both output streams are compared with a list-shaped reference. This is the level at which the status-read/lock/flush windows are hit deterministically.",
    note="Trusted: scheduling points = channel/mutex/atomic/WaitGroup/stream operations (overlay rewriter); the reference (prefix ++ relay line ++ rest); gates that script causality. Not covered: more preemptions than the bound, plain-memory races (separate -race pass), tmux bypass sink."),
+ "C01": dict(category="exploration", design="§3 C01", technique="exhaustive enumeration of configuration vectors (bounded Hamming distance from the default) x source trees x transport segmentations, each executed end to end on the real filter/relay/server code in virtual time",
+   text="Every configuration vector within Hamming distance 2 (quick) / 3 (thorough) of the default over 14 dimensions, times a set of source trees and global segmentation policies, plus every single cut position of the whole transcript on a core of configurations and the more-files-than-descriptors trees, is run as a complete transfer through the real NewTrzszFilter, real relays, the fake tunnel and the real recvFiles/sendFiles; safety and liveness oracles compare trees, names and reports.",
+   note="Trusted: the ~40-line replica of the tail of TrzMain/TszMain; the scheduler's default (deterministic) schedule - schedule perturbation is the business of C10/C11/C13/C18; zenity/promptui dialogs replaced by preset paths; fork re-exec not run."),
 }
 not_yet="check not built yet in this session (framework under construction; see DESIGN.md §7 order)"
 m={"version":1,
